@@ -288,3 +288,23 @@ def _with_deps(pid, base):
 for _pid in DEPS:
     PROPS[_pid]["tasks"] = _with_deps(_pid, PROPS[_pid]["tasks"])
     PROPS[_pid]["level_note"] = PROPS[_pid].get("level_note", "") + "; callee closure: the clauses of the conversion / interning / database-operation contracts this property's proofs assume are re-verified against their bodies in this check and counted as its obligations (tagged_dependency)"
+
+
+# ------------------------------------------------------------------------------------------------
+# History-dependent state that no contract describes (a cache added to the database or to a value object):
+# the deductive check is *undecided* on the paths that read such a field (it never guesses); the BOUNDED
+# stand-in below - a prelude of legal but unusual calls, then the native probes with history-independent
+# oracles - is what can still expose a wrong cache key or a missing invalidation.  Never counted as proved.
+_HIST_BOUND = "one fixed prelude of ~760 legal calls (values of the Unknown quantity type asked for real units, failed lookups and conversions, unit matching with exponents 1, 2, 3, -1, -2 for the same unit pairs in both orders and for list / tuple / ndarray values, validity queries, copies with other units) followed twice by the listed native probes in the same process"
+_HIST = {
+    "C02": ("history_conversions", "conversion routes (Scalar.GetValue, CreateCopy, UnitDatabase.Convert incl. exponent forms, Array.GetValues, construction forms) answer the same after the prelude"),
+    "C03": ("history_arithmetic", "+ and - (Scalar and Array, every container kind, exponents other than 1) answer the same after the prelude"),
+    "C04": ("history_arithmetic", "* / // (Scalar and Array, every container kind, exponents other than 1) answer the same after the prelude"),
+    "C15": ("history_all", "queries, conversions, arithmetic, validity and interning answer the same after the prelude; the registry reports the same"),
+}
+for _pid, (_probe, _what) in _HIST.items():
+    def _mk(base, _probe=_probe, _what=_what, _pid=_pid):
+        return lambda tier: list(base(tier)) + [("bounded_native", {"probe": _probe, "props": [_pid], "bound": _HIST_BOUND, "what": _what})]
+
+    PROPS[_pid]["tasks"] = _mk(PROPS[_pid]["tasks"])
+    PROPS[_pid]["level_note"] = PROPS[_pid].get("level_note", "") + "; state added by a change and described by no contract (a new cache field) makes the deductive check undecided on the paths that read it - a BOUNDED native history stand-in (prelude + probes, stated in the evidence) is the only coverage there"
